@@ -7,11 +7,12 @@ import z3
 from . import e2parts, parser_props as pp
 from .automaton import Aut, SymString, encode_run, model_bytes
 from .common import (EXIT_INCONCLUSIVE, Timer, log, match_known, save_replay, seed, tier)
-from .e1check import E1Outcome, e1_coverage, finish, run_parser_groups, run_toktrie_groups
+from .e1check import E1Outcome, e1_coverage, finish, run_parser_groups, run_svob_only
 
 ASSUMPTIONS = [
     "K19.1: the range-negation loop of GrammarBuilder::negated_token_ranges is cut out of /repo's current source; the `sorted.sort_by_key` call is removed (std's sort does not terminate under CBMC) and the harness supplies ranges ordered by start; ensure!(..) guards are rewritten to early returns (error construction through anyhow/format! is out of CBMC's reach); <= 3 ranges, every u32 vocabulary size",
     "K19.2: LexemeSpec::contains_token on a spec literal with <= 3 symbolic ranges (parse_numeric_token is NOT decided: str::from_utf8 + str::parse::<u32> hit the 600 s cap under CBMC)",
+    "K16.1 (shared with C16): SimpleVob::allow_range on 1..3 word vectors with symbolic previous content and symbolic inclusive range: exactly the bits of the range are added",
     "E2-19.4: for every exported text lexeme automaton and every byte string of <= 5 bytes that contains 0xFF: the run is dead (special-token lexemes and ~-complement lexemes, which the documentation says may match invalid UTF-8, are excepted)",
     "outside the claim: add_numeric_token / flush_and_check_numeric at run time, removal of the bare marker token from masks, position sensitivity of <[...]> in the grammar, marker-aware tokenisation (tokenize_bytes_marker needs greedy_tokenize: out of memory under CBMC)",
 ]
@@ -19,7 +20,7 @@ ASSUMPTIONS = [
 
 def marker_e2(out, tr, sd):
     cases = e2parts.corpus(tr, sd, with_special=True)
-    results = e2parts.export(cases)
+    results = e2parts.export(cases, joint=False)
     N = 5
     st = dict(automata=0, queries=0, solver_s=0.0, special_skipped=0, not_skipped=0, sat=0)
     for c, res in zip(cases, results):
@@ -90,14 +91,15 @@ def run():
     if t == "quick":
         specs = [s for s in specs if "ranges_n3" not in s["name"]]
     info = run_parser_groups("C19", "c19", ["builder", "lexerspec"], specs, out, harness_timeout_s=900)
-    info2 = {}
+    # token ranges reach the mask through SimpleVob::allow_range (parser.rs compute_bias, lexerspec token ranges)
+    info2, svspecs = run_svob_only("C19", "c19s", ["k16_1_allow_range_w1", "k16_1_allow_range_w2", "k16_1_allow_range_w3"], out)
     try:
         st = marker_e2(out, t, sd)
     except RuntimeError as ex:
         out.inconclusive.append("exporter build failed: %s" % str(ex)[:300])
         st = {}
     cov = e1_coverage(out, [dict(harness=s["name"]) for s in specs[:6]],
-                      ["grammar_builder.rs negated_token_ranges loop (source slice)", "earley/lexerspec.rs LexemeSpec::contains_token",
+                      ["grammar_builder.rs negated_token_ranges loop (source slice)", "earley/lexerspec.rs LexemeSpec::contains_token", "toktrie/src/svob.rs SimpleVob::allow_range",
                        "lexeme automata of the regex / JSON / Lark corpus (E2-19.4)"],
                       dict(ranges=3, marker_string_bytes=5), dict(tier=t, e2_marker=st, kani_wall_s=info.get("kani_wall_s", 0) + info2.get("kani_wall_s", 0)))
     cov["evaluations"] += st.get("queries", 0)
